@@ -54,4 +54,21 @@ Section Cor.
     destruct RB as (ini & d & FD0 & R0). exists ini, d. split; [exact FD0|].
     eapply reach_trans; [exact R0|]. econstructor; [exact FD|exact RS|constructor].
   Qed.
+
+  (* ... and the exit set of every such resolution: exactly the active states strictly below the deepest active
+     proper ancestor of the destination, narrowed to the destination's branch when several children of it are active *)
+  Theorem exit_set_reachable f sc dst dd r root rest :
+    reachable f -> find_def (scope_children hm sc) dst = Some dd -> resolve f sc dst dd = Some r ->
+    split_active f sc dst = (root, rest) ->
+    forall scoped q, sub f (sc ++ root) = Some scoped -> q <> [] ->
+      (In ((sc ++ root) ++ q) (r_exits r) <->
+         active scoped q = true /\ (Nat.ltb 1 (length scoped) = true -> hd 0 q = hd 0 rest)).
+  Proof.
+    intros RB FD RS SA. destruct (reachable_inv f RB) as (U & RG & PF).
+    assert (exists cur, sub f sc = Some cur) as [cur S].
+    { unfold resolve in RS. rewrite SA in RS. destruct (sub f (sc ++ root)) eqn:SB; [|discriminate].
+      rewrite sub_app in SB. destruct (sub f sc); [eauto|discriminate]. }
+    pose proof (nok_of_pfull hm f sc dst dd cur root rest RG PF FD S SA) as NOK.
+    exact (exits_below f sc dst dd r U RS root rest SA NOK).
+  Qed.
 End Cor.
